@@ -612,11 +612,30 @@ def aborted(name):
     return ev
 
 
+def late_raise(name):
+    """The event `name`, but application code that runs after the commit (post_commit_handler) raises: the transaction is
+    committed - content, versions and MdibVersion must be exactly those of an undisturbed commit."""
+    def ev(p):
+        def handler(mdib, tr):  # noqa: ARG001
+            raise _Abort
+        old = p.mdib.post_commit_handler
+        p.mdib.post_commit_handler = handler
+        try:
+            EVENT_BY_NAME[name](p)
+        except _Abort:
+            pass
+        finally:
+            p.mdib.post_commit_handler = old
+    return ev
+
+
 def apply(provider, name):
     """Run one event; returns 'ok' or 'disabled'."""
     try:
         if name.startswith('abort[') and name not in EVENT_BY_NAME:
             EVENT_BY_NAME[name] = aborted(name[6:-1])
+        if name.startswith('late-raise[') and name not in EVENT_BY_NAME:
+            EVENT_BY_NAME[name] = late_raise(name[11:-1])
         EVENT_BY_NAME[name](provider)
     except Disabled:
         return 'disabled'
